@@ -146,9 +146,20 @@ def kappa1d(ctx, rng, idx):
     ctx.describe(recon=rname, kappa=k, n=n, a=a, length=L, operator_row0=A[0])
     ctx.close("kappa1d", np.max(np.abs(A - ref)) * (L / n) / abs(a), 1e-12, "kappa1d/operator-not-kappa-stencil/" + rname.split("(")[0], {"n": n, "kappa": k, "a": a, "got row 0": A[0], "expected row 0": ref[0]}, cls="kappa1d")
     # same statement for random data (the operator is linear)
-    q = rng.uniform(-1, 1, n)
-    r = disc.rhs(ffield.fdata(model, mesh, [q]))[0]
-    ctx.close("kappa1d-data", np.max(np.abs(r - ref @ q)) * (L / n) / abs(a), 1e-12, "kappa1d/random-data-not-kappa-stencil/" + rname.split("(")[0], {"n": n, "kappa": k}, cls="kappa1d")
+    # "for all data": O(1) random values, a small perturbation of a constant (1e-3...1e-10: values on both sides of the seam are nearly
+    # but not exactly equal), tiny and huge amplitudes, first and last cell equal up to a few ulps
+    q0 = rng.uniform(-1, 1, n)
+    eps = float(10 ** rng.uniform(-10, -3))
+    datas = {"random": q0, "constant-plus-small-perturbation": float(rng.uniform(0.5, 2)) * float(rng.choice([-1, 1])) + eps * q0,
+             "tiny-amplitude": q0 * float(10 ** rng.uniform(-30, -8)), "huge-amplitude": q0 * float(10 ** rng.uniform(8, 30))}
+    qq = q0.copy(); qq[-1] = np.nextafter(qq[0], 2.0); datas["seam-values-one-ulp-apart"] = qq
+    for dname, q in datas.items():
+        r = disc.rhs(ffield.fdata(model, mesh, [q]))[0]
+        # the residual of the perturbation is compared with ITS size: subtract the (exactly representable) image of the constant part
+        base = float(np.median(q)) if dname == "constant-plus-small-perturbation" else 0.0
+        sc = np.max(np.abs(q - base)) + 1e-14 * np.max(np.abs(q)) + 1e-300
+        ctx.close("kappa1d-data", np.max(np.abs(r - ref @ q)) * (L / n) / abs(a) / sc, 1e-12 if dname != "constant-plus-small-perturbation" else 1e-12 + 1e-15 * abs(base) / sc * n, "kappa1d/random-data-not-kappa-stencil/" + rname.split("(")[0],
+                  {"n": n, "kappa": k, "data": dname, "q": q}, cls="kappa1d")
     ctx.nontrivial("kappa1d", n, rname, a)
 
 
